@@ -6,7 +6,8 @@ setters of thermosteam:
     `vle=False`: the count of non-empty inlets N = 0 / 1 / ≥ 2, heat and power objects folded
     into `Q`, `P := min P_in`, `H_out := Σ H_in + Q`, `conserve_phases`, and the bare
     `except:` fallback that re-phases the receiver to the union of all phases and assigns `H` again;
-  * `Stream.separate_out`: `H_new = H − other.H`, then the assignment;
+  * `Stream.separate_out`: a no-op for `None` / an empty stream, else `H_new = H − other.H`, then the
+    assignment;
   * the `H` / `h` / `S` setters of `Stream` (one temperature solve, on failure the g ↔ l
     phase flip and one more solve) and of `MultiStream` (one solve, no fallback).
 
@@ -253,13 +254,21 @@ def mixFrom (solve : Solver α) (recv : St α) (rphase0 : List Phase) (ins : Lis
         ⟨r2.st, r2.out, r2.k, some H, .n2fb, r.qs ++ r2.qs⟩
 
 /--
-`self.separate_out(other, energy_balance=True)`: `other` is `None` (nothing happens), the
-stream itself (emptied first) or another stream; `Hself`, `Hother` the enthalpy flows read
-before the material is taken out, `emptyAfter` whether `self` is empty afterwards.
+`self.separate_out(other, energy_balance=True)`:
+
+```
+if other and not other.isempty():
+    if self is other: self.empty()
+    H_new = self.H - other.H ; self._imol.separate_out(other._imol) ; self.H = H_new
+```
+`other` is `None` or an empty stream (nothing at all happens: no material, no energy, no
+temperature change, no solver call), the stream itself (emptied first) or another non-empty stream;
+`Hself`, `Hother` are the enthalpy flows read before the material is taken out, `emptyAfter`
+whether `self` is empty afterwards.
 -/
-def separateOut (solve : Solver α) (self : St α) (Hself Hother : α) (otherNone same emptyAfter : Bool) :
-    MixOut α :=
-  if otherNone then ⟨self, .ok, 0, none, .sepNone, []⟩
+def separateOut (solve : Solver α) (self : St α) (Hself Hother : α)
+    (otherNone otherEmpty same emptyAfter : Bool) : MixOut α :=
+  if otherNone || otherEmpty then ⟨self, .ok, 0, none, .sepNone, []⟩
   else
     let Hs : α := if same then 0 else Hself
     let Ho : α := if same then 0 else Hother
